@@ -5,11 +5,13 @@ Import ListNotations.
 Local Open Scope list_scope.
 
 Inductive case :=
-| CExec (data : node) (a : action) (evs : list event) (failed : bool) (final : node).
+| CExec (data : node) (a : action) (evs : list event) (failed : bool) (final : node)
+| CExec2 (data : node) (a1 a2 : action) (evs : list event) (failed : bool) (final : node).
 
 Definition check (c : case) : bool :=
   match c with
   | CExec data a evs failed final => Check.C12.check (Check.C12.CExec data a evs failed final)
+  | CExec2 data a1 a2 evs failed final => Check.C12.check (Check.C12.CExec2 data a1 a2 evs failed final)
   end.
 
 Definition mismatches (cs : list case) : list nat := bad_indices check cs.
